@@ -15,7 +15,8 @@ var poolTiny = []string{"a", "b", "ab", "ba", "c"}
 
 var poolSyntax = []string{"- x", "a-b", "* y", "#h", " x", "x ", "  ", "+", "-", "*", "a\tb", "\tx", "a\rb", "- ", "x - y", "+ z",
 	"a  b", "-x", "# h", "a#", "   lead3", "trail3   ", "\t", "-- a", "* * *", "1. a", "> q", "[x](y)", "`c`", "100%", "%s %d", "%[1]q",
-	"--", "- -", "---", "**", "***", "___", "_ _ _", "C#", "#", "##", "# #", "#include", "a #", "=", "==="}
+	"--", "- -", "---", "**", "***", "___", "_ _ _", "C#", "#", "##", "# #", "#include", "a #", "=", "===",
+	"lib\x1b[31mrary", "\x1b[32mok\x1b[0m", "\x1b[1;96mdir\x1b[22;0m", "\x1b[0m", "\x1b"}
 
 var poolUnicode = []string{"日本語", "é", "é", "‮RTL", "a\u0085b", "a b", "\ufeffb", "😀", "ß", "Ω≈ç√", " ", "a　b",
 	"ｆｕｌｌ", "́", "​", "한글", "🇯🇵", "a\ufffdb", "\ufffd", "a\ufeff"}
